@@ -141,11 +141,11 @@ theorem roundSig_err (m : Nat) (e : Int) :
 /-- real value of an exact dyadic number -/
 noncomputable def Dy.val (d : Dy) : ℝ := (if d.neg then -1 else 1) * ((d.m : ℝ) * (2:ℝ) ^ d.e)
 
-/-- real value of a bit pattern (0 for non-finite patterns; always used together with `Fin`) -/
+/-- real value of a bit pattern (0 for non-finite patterns; always used together with `Fin64`) -/
 noncomputable def val (b : Nat) : ℝ := match decode b with | some d => d.val | none => 0
 
 /-- the pattern is a finite double -/
-def Fin (b : Nat) : Prop := ∃ d, decode b = some d
+def Fin64 (b : Nat) : Prop := ∃ d, decode b = some d
 
 theorem decode_bounds {b : Nat} {d : Dy} (h : decode b = some d) : d.m < 2 ^ 53 ∧ -1074 ≤ d.e ∧ d.e ≤ 971 := by
   unfold decode at h
